@@ -100,6 +100,15 @@ func (o extOp) String() string {
 	return fmt.Sprintf("%s<-%s/a%d%s", extAttach[o.Attach], extPreds[o.Pred].name, o.Aliases, d)
 }
 
+// extName is the (user chosen) name of the k-th extension of a history: names are
+// not required to be lower case, every second one is spelled with capitals.
+func extName(k int) string {
+	if k%2 == 1 {
+		return fmt.Sprintf("X/Ext-%d", k+1)
+	}
+	return fmt.Sprintf("x/e%d", k+1)
+}
+
 var pristineTaken bool
 var pristineNodes []mimetype.VerifNode
 
@@ -155,7 +164,7 @@ func (t *treeModel) apply(op extOp) {
 		t.undo = nil
 	}
 	k := len(t.exts)
-	name := fmt.Sprintf("x/e%d", k+1)
+	name := extName(k)
 	if op.Dup {
 		name = "x/dup"
 	}
